@@ -28,7 +28,9 @@ TRUSTED = [
     "bounds and raised class, the handler's fallback class, the priority list of _get_primary_response",
     "httpx.MockTransport / httpx.Response as the fake server; Python's `match` on int literals takes the first equal case",
     "domain of the pipeline cases: parameter-less GET operations; response keys are canonical decimal strings, "
-    "'default' or wildcard-like strings; contents are JSON objects (or one event-stream primary)",
+    "'default' or wildcard-like strings; declared contents are JSON objects (or one event-stream primary); the fake server "
+    "answers with 15 body x Content-Type shapes (JSON object/array/scalars, empty, truncated, text, binary, no Content-Type, "
+    "application/problem+json)",
 ]
 
 OBJ = {"type": "object", "properties": {"x": {"type": "integer"}}}
@@ -38,6 +40,28 @@ OK_CODES = ["200", "201", "202", "204", "206", "299", "2XX"]
 ERR_CODES = ["400", "401", "404", "409", "418", "422", "429", "451", "499", "500", "501", "503", "511", "599", "4XX", "5XX"]
 BAD_CODES = ["302", "304", "100", "101", "600", "399", "1XX"]  # numeric ones make the package unimportable (F06d)
 ODD_CODES = ["20", "2"]  # all digits, start with "2": the handler treats them as success cases
+
+
+# body x Content-Type shapes the fake server answers with (the body must not influence dispatch):
+# name -> (body bytes, Content-Type or None)
+BODY_SHAPES: dict[str, tuple[bytes, str | None]] = {
+    "obj": (b'{"x": 1}', "application/json"),
+    "arr": (b'[1, 2]', "application/json"),
+    "null": (b'null', "application/json"),
+    "num": (b'42', "application/json"),
+    "str": (b'"Internal server error"', "application/json"),
+    "bool": (b'true', "application/json"),
+    "empty_json": (b'', "application/json"),
+    "empty": (b'', None),
+    "trunc": (b'{"x": ', "application/json"),
+    "text": (b'upstream says no', "text/plain; charset=utf-8"),
+    "bin": (b'\x89PNG\x00\xfe\xff', "application/octet-stream"),
+    "noct": (b'{"x": 1}', None),
+    "problem": (b'{"title": "t", "status": 400, "detail": "d"}', "application/problem+json"),
+    "problem_str": (b'"bad things"', "application/problem+json"),
+    "problem_arr": (b'["e1", "e2"]', "application/problem+json; charset=utf-8"),
+}
+SHAPE_STATUSES = [100, 302, 404, 422, 500, 503]   # statuses that are crossed with every body shape
 
 
 # ---------------------------------------------------------------- inputs
@@ -128,16 +152,18 @@ def main(arg):
         except BaseException as e:
             out[pkg] = {"import_error": type(e).__name__ + ": " + str(e)[:300]}
             continue
-        out[pkg] = {"rows": asyncio.run(run_client(cm, cfgm, exc, job))}
+        out[pkg] = {"rows": asyncio.run(run_client(cm, cfgm, exc, job, arg["shapes"]))}
     return out
 
-async def run_client(cm, cfgm, exc, job):
+async def run_client(cm, cfgm, exc, job, shapes):
+    import traceback
     cur = {}
     def handler(req):
-        if cur["sse"]:
+        if cur["sse"] and cur["shape"] == "obj":
             r = httpx.Response(cur["st"], content=b'data: {"x": 1}\n\n', headers={"content-type": "text/event-stream"})
         else:
-            r = httpx.Response(cur["st"], json={"x": 1})
+            body, ct = shapes[cur["shape"]]
+            r = httpx.Response(cur["st"], content=bytes.fromhex(body), headers=({"content-type": ct} if ct else {}))
         cur["sent"] = r
         return r
     class PassThrough:
@@ -160,9 +186,9 @@ async def run_client(cm, cfgm, exc, job):
             apis[kind] = api
         return apis[kind]
     rows = []
-    for op_i, kind, st in job["calls"]:
+    for op_i, kind, st, shape in job["calls"]:
         api = await api_for(kind)
-        cur["st"] = st; cur["sent"] = None; cur["sse"] = job["sse"][op_i]
+        cur["st"] = st; cur["sent"] = None; cur["sse"] = job["sse"][op_i]; cur["shape"] = shape
         try:
             v = getattr(api.t, "op%d" % op_i)()
             if hasattr(v, "__aiter__"):
@@ -174,9 +200,12 @@ async def run_client(cm, cfgm, exc, job):
             mro = [c.__name__ for c in type(e).__mro__]
             mro = mro[: mro.index("Exception") + 1] if "Exception" in mro else mro
             sc = getattr(e, "status_code", None)
+            files = [f.filename.replace("\\", "/") for f in traceback.extract_tb(e.__traceback__)]
+            where = ("transport" if any(f.endswith("/core/http_transport.py") for f in files)
+                     else "endpoint" if any("/endpoints/" in f for f in files) else "other")
             rows.append(["exc", mro, isinstance(e, exc.HTTPError), isinstance(e, exc.ClientError),
                          isinstance(e, exc.ServerError), sc if isinstance(sc, int) else None,
-                         cur["sent"] is not None and getattr(e, "response", None) is cur["sent"], str(e)[:120]])
+                         cur["sent"] is not None and getattr(e, "response", None) is cur["sent"], str(e)[:120], where])
     for api in apis.values():
         await api.close()
     return rows
@@ -201,7 +230,8 @@ def run_jobs(jobs: list[dict]) -> list[dict]:
         batches = [jobs[i:i + 8] for i in range(0, len(jobs), 8)]
 
         def one(batch: list[dict]) -> dict:
-            arg = {"jobs": [{"pkg": j["pkg"], "calls": j["calls"],
+            arg = {"shapes": {k: [b.hex(), ct] for k, (b, ct) in BODY_SHAPES.items()},
+                   "jobs": [{"pkg": j["pkg"], "calls": j["calls"],
                              "sse": [any(c == "sse" for _, c in op) for op in j["spec"]]}
                             for j in batch if j["gen_error"] is None]}
             r = drive(gens[0], DRIVER, arg, timeout=900)
@@ -217,19 +247,21 @@ def run_jobs(jobs: list[dict]) -> list[dict]:
     cases = []
     for job in jobs:
         res = results.get(job["pkg"])
-        for k, (op_i, kind, st) in enumerate(job["calls"]):
+        for k, (op_i, kind, st, shape) in enumerate(job["calls"]):
             if job["gen_error"] is not None:
                 obs = ["generator_error", job["gen_error"]]
             elif "import_error" in res:
                 obs = ["import_error", res["import_error"]]
             else:
                 obs = res["rows"][k]
-            if obs[0] == "exc" and not obs[2] and 200 <= st <= 299:
-                # Outside C06's quantifier (2xx): the handler took a `return <decode>` branch and the decode
-                # expression itself failed (e.g. NameError: structure_from_dict missing in a secondary-2xx branch,
-                # a C05 matter).  For the dispatch model this is the Return branch.
+            if obs[0] == "exc" and not obs[2] and obs[8] == "endpoint":
+                # The handler took a `return <decode>` branch and the decode expression itself failed inside the
+                # endpoint method (NameError: structure_from_dict missing in a secondary-2xx branch; cattrs/json
+                # rejecting a body that does not conform).  For the DISPATCH model this is the Return branch; the
+                # oracle still sees an exception that is not an HTTPError.  A crash inside the transport is never
+                # canonicalised this way.
                 obs = ["decode_crash", obs[1][0], obs[7]]
-            inp = {"kind": kind, "spec": job["spec"], "op": op_i, "st": st}
+            inp = {"kind": kind, "spec": job["spec"], "op": op_i, "st": st, "body": shape}
             cases.append({"input": inp, "obs": obs, "oracle_fail": oracle(inp, obs)})
     return cases
 
@@ -247,7 +279,10 @@ def oracle(inp: dict, obs: list) -> list[str]:
         return ["the generated package cannot be imported, no call can raise a status-carrying error: " + obs[1].split(" (")[0]]
     if obs[0] == "ret":
         return [f"status {st // 100}xx: the call returned a value ({obs[1]}) instead of raising"]
-    _, mro, is_http, is_client, is_server, sc, same, _msg = obs
+    if obs[0] == "decode_crash":
+        return [f"status {st // 100}xx: the handler tried to decode the body as a success value and raised {obs[1]}, "
+                f"not an instance of HTTPError"]
+    _, mro, is_http, is_client, is_server, sc, same, _msg, _where = obs
     fails = []
     if not is_http:
         fails.append(f"status {st // 100}xx: raised {mro[0]}, not an instance of HTTPError")
@@ -285,7 +320,7 @@ def c_obs(obs: list) -> str:
         return "OImport"
     if obs[0] == "decode_crash":
         return "ORet"
-    _, mro, _h, _c, _s, sc, same, _msg = obs
+    _, mro, _h, _c, _s, sc, same, _msg, _where = obs
     return f"(OExc {clist(cstr(n) for n in mro)} {sc if sc is not None else 0} {cbool(bool(same) and sc is not None)})"
 
 
@@ -335,7 +370,7 @@ def c_onat(x) -> str:
 def main(chk: Check, replay: dict | None = None) -> int:
     if replay is not None:
         i = replay["input"]
-        cs = run_jobs([{"spec": i["spec"], "calls": [(i["op"], i["kind"], i["st"])]}])
+        cs = run_jobs([{"spec": i["spec"], "calls": [(i["op"], i["kind"], i["st"], i.get("body", "obj"))]}])
         print(json.dumps(cs[0], indent=1))
         if cs[0]["oracle_fail"]:
             print(f"VIOLATION property=C06 replay=(replayed) : {cs[0]['oracle_fail']}")
@@ -346,7 +381,7 @@ def main(chk: Check, replay: dict | None = None) -> int:
     jobs: list[dict] = []
     for c in load_corpus("C06"):
         i = c["input"]
-        jobs.append({"spec": i["spec"], "calls": [(i["op"], i["kind"], i["st"])]})
+        jobs.append({"spec": i["spec"], "calls": [(i["op"], i["kind"], i["st"], i.get("body", "obj"))]})
     specs = list(FIXED_SPECS) + [gen_spec(rng) for _ in range(110 if chk.thorough else 26)]
     all_statuses = list(range(100, 600))
     for spec in specs:
@@ -354,7 +389,14 @@ def main(chk: Check, replay: dict | None = None) -> int:
         broken = any(c.isdigit() and not c.startswith("2") and not 400 <= int(c) < 600 for op in spec for c, _ in op)
         if broken:  # the whole package is unimportable: a handful of statuses says it all
             sts = sorted(set(rng.sample(sts, 6)) | {302, 404, 500})
-        jobs.append({"spec": spec, "calls": [(o, k, st) for o in range(len(spec)) for k in ("bundled", "custom") for st in sts]})
+        calls = [(o, k, st, "obj") for o in range(len(spec)) for k in ("bundled", "custom") for st in sts]
+        if not broken:
+            # statuses x every other body/Content-Type shape (the body must not influence the outcome)
+            ssts = sorted(set(SHAPE_STATUSES) | set(declared_statuses(spec)[:2])) if not chk.thorough else \
+                sorted(set(range(100, 600, 20)) | set(SHAPE_STATUSES) | set(declared_statuses(spec)))
+            calls += [(o, k, st, sh) for o in range(len(spec)) for k in ("bundled", "custom") for st in ssts
+                      for sh in BODY_SHAPES if sh != "obj"]
+        jobs.append({"spec": spec, "calls": calls})
     cases = run_jobs(jobs)
     chk.cov["evaluations"] = len(cases)
     nontrivial = {json.dumps(c["input"], sort_keys=True) for c in cases if not 200 <= c["input"]["st"] <= 299}
@@ -369,13 +411,14 @@ def main(chk: Check, replay: dict | None = None) -> int:
         "statuses_per_op": "every 100..599" if chk.thorough else f"{len(QUICK_STATUSES)} representative + declared",
         "by_kind": {k: sum(1 for c in cases if c["input"]["kind"] == k) for k in ("bundled", "custom")},
         "by_status_class": {f"{d}xx": sum(1 for c in cases if c["input"]["st"] // 100 == d) for d in range(1, 6)},
+        "by_body_shape": {sh: sum(1 for c in cases if c["input"].get("body") == sh) for sh in BODY_SHAPES},
         "observations": dist, "oracle_failures": sum(1 for c in cases if c["oracle_fail"])}
     for c in cases[:2] + cases[-2:]:
         chk.sample({"input": c["input"], "obs": c["obs"]})
     codes = None
     if chk.model_ok:
         codes = chk.coq_eval("From PG Require Import Lib.Strs Model.Dispatch Corr.C06.", "input * obs",
-                             [c_case(c) for c in cases], "run", shard=1500 if chk.thorough else 600)
+                             [c_case(c) for c in cases], "run", shard=1500 if chk.thorough else 1000)
     chk.decide(cases, codes, {1: "F06a", 2: "F06b", 3: "F06c", 4: "F06d"},
                "Corr.C06.run: call(model) = outcome of the generated client's method under MockTransport")
     # function-level: the three copies of _get_primary_response
@@ -393,4 +436,5 @@ def main(chk: Check, replay: dict | None = None) -> int:
     return chk.finish(TRUSTED,
                       rule="corpus + fixed operation shapes + seeded random specs (1-3 ops, 2xx/4xx/5xx/default/wildcard/"
                            "3xx/1xx keys, with/without content) x statuses x {bundled, custom}; one case = one call; "
-                           "non-trivial = status outside 200-299; distinct by JSON of (kind, spec, op, status)")
+                           "every status with a JSON-object body, a subset of statuses x 14 further body/Content-Type shapes; "
+                           "non-trivial = status outside 200-299; distinct by JSON of (kind, spec, op, status, body shape)")
